@@ -118,6 +118,38 @@ def m_option_cloned(ex, st, callee, args):
     return [(None, some(inner))]
 
 
+def m_refcell_borrow(ex, st, callee, args):
+    """std RefCell::borrow / borrow_mut: a guard holding a reference to the content (borrow flags of std's RefCell are not
+    modelled: the kernels that use it hold one borrow at a time, which the native validation confirms)"""
+    ref = args[0]
+    n = 0
+    while n < 6:
+        v = ex.read(st, ref.cell, ref.path)
+        if isinstance(v, Ref):
+            ref = v
+            n += 1
+            continue
+        break
+    if not (isinstance(v, Adt) and v.ty == "RefCell"):
+        raise Inconclusive("RefCell borrow on %r" % (v,))
+    return [(None, Adt("StdRef", None, [Ref(ref.cell, ref.path + (0,))]))]
+
+
+def m_stdref_deref(ex, st, callee, args):
+    g = args[0]
+    n = 0
+    while isinstance(g, Ref) and n < 6:
+        g = ex.read(st, g.cell, g.path)
+        n += 1
+    if not (isinstance(g, Adt) and g.ty == "StdRef"):
+        raise Inconclusive("Ref deref on %r" % (g,))
+    return [(None, g.fields[0])]
+
+
+def m_refcell_new(ex, st, callee, args):
+    return [(None, Adt("RefCell", None, [args[0]]))]
+
+
 def m_into_identity(ex, st, callee, args):
     """<&String as Into<String>>::into / From conversions between string handles / HashMap -> VariableMapping wrappers are
     structural copies in this value model"""
@@ -157,6 +189,9 @@ def install(m):
         (r"^(std::collections::)?HashMap::<String, .*>::len$", m_len),
         (r"^<(std::collections::)?HashMap<String, .*> as Clone>::clone$", m_clone),
         (r"^Option::<&.*>::cloned$", m_option_cloned),
+        (r"^RefCell::<.*>::(borrow|borrow_mut)$", m_refcell_borrow),
+        (r"^<(std::cell::)?Ref(Mut)?<'_, .*> as Deref(Mut)?>::deref(_mut)?$", m_stdref_deref),
+        (r"^RefCell::<.*>::new$", m_refcell_new),
         (r"^<&String as Into<String>>::into$|^<String as From<&String>>::from$", m_into_identity),
         (r"^<(std::collections::)?HashMap<.*> as Into<stack::VariableMapping>>::into$", m_into_via_from),
     ]
